@@ -222,6 +222,104 @@ def law_formulas(eng, res, rule="R-LAW-FORMULA"):
     return n
 
 
+INF = float("inf")
+
+
+def _ival(e, env):
+    """open-interval bounds (lo, hi) of an arithmetic expression over named quantities, or None when not evaluable"""
+    if isinstance(e, ast.Constant) and isinstance(e.value, (int, float)) and not isinstance(e.value, bool):
+        return float(e.value), float(e.value)
+    if isinstance(e, ast.Name):
+        return env.get(e.id)
+    if isinstance(e, ast.UnaryOp) and isinstance(e.op, ast.USub):
+        v = _ival(e.operand, env)
+        return None if v is None else (-v[1], -v[0])
+    if isinstance(e, ast.BinOp):
+        a, b = _ival(e.left, env), _ival(e.right, env)
+        if a is None or b is None:
+            return None
+        if isinstance(e.op, ast.Add):
+            return a[0] + b[0], a[1] + b[1]
+        if isinstance(e.op, ast.Sub):
+            return a[0] - b[1], a[1] - b[0]
+        if isinstance(e.op, ast.Mult):
+            c = [x * y if not ((x in (INF, -INF) and y == 0) or (y in (INF, -INF) and x == 0)) else 0.0 for x in a for y in b]
+            return min(c), max(c)
+    return None
+
+
+def law_finite(eng, res, rule="R-LAW-FINITE"):
+    """A discrete law is evaluated by SciPy at every integer of its support, the lower end included.  With the support
+    starting at 0 (rv_discrete's default when the law object is created without `a=`), a factor `M ** e` whose exponent
+    can be negative for admissible shape parameters is 0 ** negative = inf at M = 0, a `log(M)` is -inf there, a division
+    by M is a division by zero: the mass function is not finite on its support, the cumulative sums SciPy builds from it
+    are inf / nan / clipped, and draws follow no law at all.  Shape parameters are taken as arbitrary positive reals
+    (the constructors restrict them no further)."""
+    res.doc(rule, "hand-written discrete mass functions are finite at the lower end of their support for all positive shape parameters (no 0 ** negative, log(0), x / 0 at M = 0)")
+    n = 0
+    for gname, hooks in LAWS.items():
+        ci = eng.prog.classes.get(gname)
+        if ci is None or not any(b.endswith("rv_discrete") for b in ci.base_names):
+            continue
+        f = ci.method("_pmf")
+        if f is None:
+            continue
+        # lower end of the support: `a=` at the creation of the law object, else 0
+        lo = 0.0
+        for fam in c09.families(eng):
+            init = fam.method("__init__")
+            for c in calls(init):
+                if any(getattr(t, "name", "") == gname for t in eng.resolve_call(init, c)):
+                    for k in c.keywords:
+                        if k.arg == "a" and isinstance(k.value, ast.Constant) and isinstance(k.value.value, (int, float)):
+                            lo = float(k.value.value)
+                        elif k.arg == "a":
+                            lo = None
+        res.unit(f)
+        params = f.params[1:]
+        if not params:
+            continue
+        sv = params[0]
+        env = {p_: (0.0, INF) for p_ in params[1:]}  # positive shape parameters
+        env[sv] = (lo if lo is not None else 0.0, INF)
+        # straight-line local definitions are substituted (names defined once)
+        defs = {}
+        for st in ast.walk(f.node):
+            if isinstance(st, ast.Assign) and len(st.targets) == 1 and isinstance(st.targets[0], ast.Name):
+                defs.setdefault(st.targets[0].id, []).append(st.value)
+
+        def is_support(e):
+            return isinstance(e, ast.Name) and e.id == sv
+
+        def may_be_zero(e):
+            """the expression is the support variable itself (possibly scaled): zero exactly at the lower end 0"""
+            if is_support(e):
+                return env[sv][0] <= 0.0
+            if isinstance(e, ast.BinOp) and isinstance(e.op, (ast.Mult, ast.Div)):
+                return may_be_zero(e.left) or (isinstance(e.op, ast.Mult) and may_be_zero(e.right))
+            return False
+
+        bad = []
+        for x in ast.walk(f.node):
+            if isinstance(x, ast.BinOp) and isinstance(x.op, ast.Pow) and may_be_zero(x.left):
+                iv = _ival(x.right, env)
+                if iv is None:
+                    raise AnalysisError(f"{f.qualname}: exponent {src(x.right)} of the support variable is outside the interval evaluator")
+                if iv[0] < 0:
+                    bad.append(("zero-power", x, f"`{src(x)}` is 0 ** negative = inf at {sv} = 0 whenever {src(x.right)} < 0 (exponent ranges over ({iv[0]:g}, {iv[1]:g}) for positive shape parameters)"))
+            if isinstance(x, ast.Call) and callee_name(x) in ("log", "log10", "log2", "log1p") and x.args and may_be_zero(x.args[0]) and callee_name(x) != "log1p":
+                bad.append(("log-at-zero", x, f"`{src(x)}` is -inf at {sv} = 0 (and 0 * -inf = nan when its factor vanishes)"))
+            if isinstance(x, ast.BinOp) and isinstance(x.op, ast.Div) and may_be_zero(x.right):
+                bad.append(("division-at-zero", x, f"`{src(x)[:60]}` divides by {sv} = 0"))
+        n += 1
+        roles = sorted({b[0] for b in bad}) or ["finite"]
+        for role in roles:
+            mine = [b for b in bad if b[0] == role]
+            res.ob(rule, f, role if mine else "finite-on-support", f"{gname}._pmf is finite at the lower end of its support ({sv} = {lo if lo is not None else '?'}) for every positive shape parameter",
+                   mine[0][1] if mine else f.node, not mine, "; ".join(m[2] for m in mine[:2]))
+    return n
+
+
 def check(eng, res):
     res.doc("R-LAW-FORMULA", "hand-written mass / density functions equal the documented formulas (AC normal form); law objects built with their name only; draws returned unchanged")
     res.doc("R-DRAW-PARAMS", "sibling agreement: rvs, both cdf calls and pmf/pdf receive identical shape parameters on the same object")
@@ -239,6 +337,8 @@ def check(eng, res):
     res.doc("R-NO-SHARED-MUTABLE", "each distribution object owns the law object it configures: nothing bound once per class is re-configured through an instance")
     _c10.shared_mutable(eng, res)
     _c10.shared_class_object(eng, res, only_classes=["Distribution", "rv_discrete", "rv_continuous"])
+    nf = law_finite(eng, res)
+    res.floor("R-LAW-FINITE", nf, 2)
     n = law_formulas(eng, res)
     res.floor("R-LAW-FORMULA", n, 7)
     c15.unknown_reject(eng, res)
